@@ -1,5 +1,6 @@
 SPECIFICATION Spec
 CONSTANT Kind = "vec"
 INVARIANT InvOrder
+INVARIANT InvEmpty
 INVARIANT InvWindow
 CHECK_DEADLOCK FALSE
